@@ -31,6 +31,7 @@ type cmFile struct {
 	tp      int
 	wmode   int
 	usecmap string
+	usePos  int // the usecmap line stands before block number usePos
 	blocks  []cmBlock
 }
 
@@ -46,10 +47,10 @@ func (c *cmFile) render(r *rng, fault string) []byte {
 	}
 	fmt.Fprintf(&sb, "/CIDSystemInfo 3 dict dup begin\n  /Registry (%s) def\n  /Ordering (%s) def\n  /Supplement %d def\nend def\n", c.reg, c.ord, c.supp)
 	fmt.Fprintf(&sb, "/CMapName /%s def\n/CMapVersion 1.0 def\n/CMapType %d def\n/WMode %d def\n", c.name, c.tp, c.wmode)
-	if c.usecmap != "" {
-		fmt.Fprintf(&sb, "/%s usecmap\n", c.usecmap)
-	}
 	for bi, b := range c.blocks {
+		if c.usecmap != "" && bi == c.usePos {
+			fmt.Fprintf(&sb, "/%s usecmap\n", c.usecmap)
+		}
 		n := len(b.entries)
 		declared := n
 		if fault == "count+1" && bi == 0 {
@@ -91,6 +92,9 @@ func (c *cmFile) render(r *rng, fault string) []byte {
 		}
 		fmt.Fprintf(&sb, "end%s\n", b.kind)
 	}
+	if c.usecmap != "" && c.usePos >= len(c.blocks) {
+		fmt.Fprintf(&sb, "/%s usecmap\n", c.usecmap)
+	}
 	sb.WriteString("endcmap\nCMapName currentdict /CMap defineresource pop\nend\nend\n%%EndResource\n%%EOF\n")
 	return []byte(sb.String())
 }
@@ -108,6 +112,7 @@ func randCMap(r *rng) *cmFile {
 		supp: r.intn(7), tp: r.rangeInt(0, 2), wmode: r.intn(2)}
 	if r.chance(1, 3) {
 		c.usecmap = pick(r, []string{"Base-H", "Other"})
+		c.usePos = r.intn(10) // anywhere between the blocks
 	}
 	kinds := []string{"codespacerange", "cidchar", "cidrange", "bfchar", "bfrange", "notdefchar", "notdefrange"}
 	used := map[string]bool{} // distinct source codes per table so that the sorted order is unique
@@ -280,6 +285,20 @@ func cmapCase(o *suiteOut, line string) {
 	fault := f[2]
 	r := newRng(seed)
 	c := randCMap(r)
+	if fault == "big" {
+		// a long regular CMap: 350 blocks of 100 ranges (about 105,000 operations)
+		c.blocks = []cmBlock{{kind: "codespacerange", entries: []cmEntry{{a: []byte{0, 0, 0}, b: []byte{0xff, 0xff, 0xff}}}}}
+		code := 0
+		for b := 0; b < 350; b++ {
+			blk := cmBlock{kind: "cidrange"}
+			for j := 0; j < 100; j++ {
+				a := []byte{byte(code >> 16), byte(code >> 8), byte(code)}
+				blk.entries = append(blk.entries, cmEntry{a: a, b: a, dst: fmt.Sprint(code), dobj: postscript.Integer(code)})
+				code += 3
+			}
+			c.blocks = append(c.blocks, blk)
+		}
+	}
 	applicable := true
 	if fault == "unequal" || fault == "reversed" {
 		applicable = len(c.blocks) > 0 && len(c.blocks[0].entries) > 0 // first block is a code space range
@@ -305,7 +324,7 @@ func cmapCase(o *suiteOut, line string) {
 	if pan != "" {
 		o.fail("C01", "no panic in the CMap reader", line, "error value", pan)
 	}
-	if fault == "none" {
+	if fault == "none" || fault == "big" {
 		if err != nil {
 			o.fail("C07", "a CMap file in the standard form is accepted", line, "dictionary", err.Error())
 		} else if diff := checkCMap(c, d); diff != "" {
@@ -334,6 +353,7 @@ func suiteCMap(o *suiteOut, r *rng, tier string, n int) {
 	if n > 0 {
 		nr = n
 	}
+	cmapCase(o, fmt.Sprintf("cmap %d big", r.next()%1000000007))
 	for i := 0; i < nr; i++ {
 		seed := r.next() % 1000000007
 		cmapCase(o, fmt.Sprintf("cmap %d none", seed))
